@@ -1,7 +1,7 @@
 (* C15 -- independent instances may be used concurrently from different threads.
    Property theorems only: statement + exact + Print Assumptions. *)
 From Coq Require Import List ZArith String Bool.
-From LJT Require Import model.Threads model.Globals model.ErrState gen.GenGlobals gen.GenGlobalsBin proofs.ThreadsProofs proofs.GlobalsProofs proofs.GlobalsBinProofs proofs.ErrStateProofs.
+From LJT Require Import model.Threads model.Globals model.ErrState gen.GenGlobals gen.GenGlobalsBin proofs.ThreadsProofs proofs.GlobalsProofs proofs.GlobalsBinProofs proofs.ErrStateProofs model.DestFlow proofs.DestFlowProofs.
 Import ListNotations.
 
 (* (1) noninterference -- generic: ALL programs, ALL interleavings, unbounded.
@@ -90,6 +90,31 @@ Theorem C15_source_errstate : errstate_source_b = true.
 Proof. exact errstate_source_check. Qed.
 Print Assumptions C15_source_errstate.
 
+(* (3c) the dummy destination buffer installed by tj3Init is replaced before the first byte is emitted: over the GENERATED
+   structured call trees of every function of src/turbojpeg.c / turbojpeg-mp.c that can emit JPEG bytes (callees first),
+   the static check accepts every tree, and the emitting functions are exactly the expected ones ... *)
+Theorem C15_dest_before_emit :
+  chk_all [] emit_trees = true /\ map fst emit_trees = expected_emitters.
+Proof. exact dest_before_emit_proof. Qed.
+Print Assumptions C15_dest_before_emit.
+
+(* ... and the static check is sound for the trace semantics of call trees (any branch choice consistent with the
+   identified conditions, any number of loop iterations with fresh condition values, stopping anywhere): started with
+   the dummy still installed, an accepted function never reaches an emitting call before jpeg_mem_dest_tj. *)
+Theorem C15_dest_check_sound :
+  forall safe n s', chk safe (false, []) n = Some s' ->
+  forall rho t b, exec safe rho n t b -> tsafe false t = true.
+Proof. exact chk_function_safe. Qed.
+Print Assumptions C15_dest_check_sound.
+
+(* the replay that the extracted driver runs on the harness's merged event sequence is the thread-model replay, and for
+   one thread it is the error-state model *)
+Theorem C15_replay_models_agree :
+  (forall tr ls s, (forall l, lget ls l = s l) -> lreplay tr ls = replay tr s) /\
+  (forall t tr s e, est_rel t s e -> replay (map (pair t) tr) s = snd (erun tr e)).
+Proof. exact (conj lreplay_correct (fun t tr s e => replay_is_erun t tr s e)). Qed.
+Print Assumptions C15_replay_models_agree.
+
 (* (4) the property in the model, for whatever steps stand for the C calls; its
    hypothesis within_inventory ("the C text's real footprint is what the inventory
    says") is NOT proved about the C text: it is trusted to the translator. *)
@@ -121,6 +146,15 @@ Example C15_ex_errstr_old_refuted :
   snd (erun [ENew 1; ENew 2; EFail 1 11; EFail 2 22; EGet 1] est0) = [11%Z] /\
   snd (erun [ENew 0; ENew 1; EFail 0 11; EGet 0; EFail 1 22; EGet 0] est0) = [11%Z; 11%Z].
 Proof. exact errstr_old_refuted. Qed.
+
+Example C15_ex_dest_check_rejects :
+  chk [] (false, []) (NSeq [NCall 2; NCall 1]) = None /\
+  chk [] (false, []) (NSeq [NIf 1 [NCall 1]; NIf 2 [NCall 2]]) = None /\
+  chk [] (false, []) (NLoop (NSeq [NIf 1 [NCall 2]; NIf 1 [NCall 1]])) = None /\
+  chk [] (false, []) (NSeq [NLoop (NIf 1 [NCall 1]); NIf 1 [NCall 2]]) = None /\
+  chk [] (false, []) (NCallF "helper") = None /\
+  chk [] (false, []) (NSeq [NIf 1 [NCall 1]; NIf 1 [NCall 2]]) <> None.
+Proof. exact chk_rejects. Qed.
 
 Example C15_ex_within_inventory : forall nglob, within_inventory nglob (api_step nglob).
 Proof. exact api_step_within. Qed.
